@@ -28,7 +28,8 @@ LEVEL_TEXT = ("Machine-checked proof (Coq, closed under the global context) over
 LEVEL_NOTE = ("PARTIAL by nature: RSA/ECDSA/Ed25519 signature verification itself (cryptography, nacl), UTF-8 decoding "
               "and key derivation are oracles - 'fails for other data / altered signature / different key' is proved "
               "only as 'True only if the library accepted' and tested on real keys.  Keys are abstract tokens in the "
-              "model.  RSAKey.HASHES, the key / curve names and the certificate suffix are regenerated from the source "
+              "model.  Bytes AFTER the (name, blob) pair in the Message handed to verify_ssh_sig are not read by it (callers own them; "
+              "Transport._verify_key rejects them, the publickey-auth path does not): modelled and tested as 'answer unchanged'.  RSAKey.HASHES, the key / curve names and the certificate suffix are regenerated from the source "
               "by gen/c35.py every run (fail-closed AST translator) and cross-checked against the live classes.  Trusted: Coq kernel + vm_compute, the hand-written model, gen/c35.py, this harness and its "
               "recording shims around the library objects.")
 TECHNIQUE = "Coq proof over wrapper model (name tables AST-translated by gen/c35.py) with library oracles + vm_compute differential correspondence with recorded library calls + real-key oracle"
@@ -424,7 +425,7 @@ def run(ctx):
                 "messages (incl. empty) and, for RSA, all six algorithm names; verification of the genuine signature under "
                 "every counterpart, under other data, under other keys of the class, with bits flipped inside the signature "
                 "value, and ~60 structural mutations (truncation, extension, any-bit flips, 18 algorithm names incl. invalid "
-                "UTF-8, lying length prefixes, wrong blob lengths, RSA zero padding variants, ECDSA signatures searched for r / s with top byte exactly 0x80 / 0xff / other >= 0x80 and re-encoded without the sign byte (negative mpint: must be rejected), RSA relabelling over all label x digest pairs (verifies iff same digest), signature/data boundary splices (sig(prefix||data)||prefix against data, sig(data)||data against the empty message, for every class), over-long RSA blobs (genuine signature with 1..37 leading zero bytes / other bytes in front / bytes behind: must be rejected), ECDSA negative / zero / oversized "
+                "UTF-8, lying length prefixes, wrong blob lengths, RSA zero padding variants, bytes appended (1 byte, NUL, a whole mpint, an empty string, zeros) inside the signature string / after the algorithm name (must be False) and after the outer signature string (caller-owned remainder: answer unchanged), ECDSA signatures searched for r / s with top byte exactly 0x80 / 0xff / other >= 0x80 and re-encoded without the sign byte (negative mpint: must be rejected), RSA relabelling over all label x digest pairs (verifies iff same digest), signature/data boundary splices (sig(prefix||data)||prefix against data, sig(data)||data against the empty message, for every class), over-long RSA blobs (genuine signature with 1..37 leading zero bytes / other bytes in front / bytes behind: must be rejected), ECDSA negative / zero / oversized "
                 "/ non-minimal / truncated inner integers).  Every call is one case; non-trivial = distinct")
     ctx.trusted += ["recording shims around the library objects (PubProxy/PrivProxy, VerifyKey.verify patch) in this harness",
                     "cryptography / PyNaCl signature verification and key derivation (oracles)"]
@@ -540,8 +541,9 @@ def run(ctx):
                         if data:
                             for lab, o in objs[:3]:
                                 one(o, lab, k["label"], b"", build(name, blob + data), "splice-sig-then-data-vs-empty", expect=False)
-                                one(o, lab, k["label"], data[len(data) // 2:], build(name, blob + data[:len(data) // 2]),
-                                    "splice-sig-then-half-data", expect=False)
+                                if len(data) >= 2:    # with a 1-byte message the "half" prefix is empty: that is the genuine case
+                                    one(o, lab, k["label"], data[len(data) // 2:], build(name, blob + data[:len(data) // 2]),
+                                        "splice-sig-then-half-data", expect=False)
                     if ci == 1 and alg is None and data:
                         # sign-byte boundary of the inner mpints: when r or s carries a 00 sign byte (top byte >= 0x80),
                         # the blob WITHOUT that byte encodes a negative integer - an altered signature, must be False.
@@ -565,6 +567,18 @@ def run(ctx):
                                             one(o, lab, k["label"], d2, alt, "ecdsa-sign-byte-dropped-top-%s" % tag, expect=False)
                             if len(found) >= 6 or (t > 400 and sum(1 for f in found if f[1] == "0x80") >= 1 and len(found) >= 4):
                                 break
+                    if alg is None:
+                        # bytes appended at every nesting level: 1 byte, a whole extra mpint / string, zeros.  INSIDE the signature
+                        # string (after the RSA / Ed25519 signature, after s of the ECDSA (r, s) pair) and right after the
+                        # algorithm-name field they alter the signature: must be False.  AFTER the outer signature string they are
+                        # not part of what verify_ssh_sig reads (the caller owns the rest of its Message; Transport._verify_key
+                        # rejects such a remainder itself): the answer must stay that of the genuine signature.
+                        for tl, tail in (("1-byte", bytes([rng.randrange(256)])), ("nul", b"\x00"), ("mpint", sstr_(mp(rng.randrange(1, 1 << 64)))),
+                                         ("empty-string", sstr_(b"")), ("zeros", bytes(rng.randrange(2, 12)))):
+                            for lab, o in objs[:3]:
+                                one(o, lab, k["label"], data, build(name, blob + tail), "appended-inside-blob-%s" % tl, expect=False)
+                                one(o, lab, k["label"], data, sstr_(name) + tail + sstr_(blob), "appended-after-name-%s" % tl, expect=False)
+                                one(o, lab, k["label"], data, good + tail, "appended-after-signature-%s" % tl, expect=True)
                     if ci == 0:
                         # relabelling: the same signature blob under every RSA algorithm name verifies exactly when the
                         # label's digest is the one the signature was made with
